@@ -20,13 +20,15 @@ RULE = ("random feature trees (1-2 features x 0-2 rules x backgrounds at both le
         "de-selected scenario); distinct by hash of (program, args, fault).")
 ASSUMPTIONS = [
     "reference model bvm/ref/runmodel.py (selection, step order, outcome table, --stop/abort cut) written from the statements",
-    "the verdict of a dry-run whose selected scenarios contain an undefined step is not demanded (both accepted, counted separately)",
+    "a dry-run executes nothing but looks every step of every selected scenario up: an undefined step found there counts as "
+    "'a selected scenario runs into an undefined step' and makes the run fail; a dry-run without one succeeds",
     "hook/cleanup fault cases demand 'failed' only when the injected fault actually fired",
 ]
 REQUIRED = {"verdict.matches_model": {"quick": 1500, "thorough": 100000}, "verdict.structural": {"quick": 1000, "thorough": 80000},
             "fault.hook_makes_run_fail": {"quick": 300, "thorough": 20000}, "fault.cleanup_makes_run_fail": {"quick": 100, "thorough": 5000},
             "exit_code.matches_model": {"quick": 12, "thorough": 300}}
-REQUIRED_SEEN = {"only_cause": ["failed_scenario", "aborted", "aborted_without_failed_scenario", "hook_failure", "cleanup_failure"],
+REQUIRED_SEEN = {"only_cause": ["failed_scenario", "aborted", "aborted_without_failed_scenario", "hook_failure", "cleanup_failure",
+                                "undefined_dry_run"],
                  "verdict": ["failed", "success"]}
 NSHARDS = {"quick": 16, "thorough": 16}
 NONTRIVIAL = "see RULE"
@@ -171,6 +173,15 @@ def run(spec, mon):
         if obs.escaped is not None or case["cfg"]["dry_run"]:
             continue
         nh = len(obs.hooks)
+        if not pred.ambiguous_hooks and not obs.runner.aborted:
+            # "any single raising hook": a hook call that the run silently omits can never turn the run red -- the injection
+            # points offered by the fault-free run have to be the hook calls the selected part of the tree demands
+            want_h = sorted((h, repr(e), t) for (h, e, t) in pred.hooks if h.split("_", 1)[1] in ("feature", "rule", "all"))
+            got_h = sorted((h, repr(e), t) for (h, e, t) in obs.hooks if h.split("_", 1)[1] in ("feature", "rule", "all"))
+            # (extra calls -- e.g. for a container whose own tags match although it has no selected scenario -- are not C01's business)
+            mon.check("fault.container_hook_points_as_demanded", all(x in got_h for x in want_h),
+                      lambda: RB.witness(case, missing=[x for x in want_h if x not in got_h][:6],
+                                         unexpected=[x for x in got_h if x not in want_h][:6]))
         if nh:
             ks = rng.sample(range(nh), min(nh, 2 if tier == "quick" else 4))
             run_hook_fault(lab, mon, case, obs, pred, rng, ks)
@@ -239,5 +250,5 @@ LEVEL_TEXT = ("Exploration: the real ModelRunner executes generated feature tree
               "single raising cleanups (verdict must be failed whenever the fault fired, nothing may escape); a sample "
               "runs as `python -m behave` and compares the process exit code. Thorough adds an exhaustive small scope.")
 LEVEL_NOTE = ("Trusted: reference model; generated shapes only (small trees, 8 outcomes, 1 fault per run); "
-              "dry-run+undefined verdict deliberately open.")
+              "dry-run: failed iff a selected scenario has an undefined step.")
 TECHNIQUE = "runtime monitoring: reference-model oracle + fault injection over real runner executions (in-process and subprocess)"
